@@ -576,7 +576,8 @@ SINGLE_KINDS = ["conv", "dw", "fc", "maxpool", "avgpool", "add", "sub", "mul", "
                 "slice", "concat", "minimum", "maximum", "relu", "abs", "add_bcast", "mul_scalar", "transpose", "transpose_c", "conv_head", "prelu",
                 "conv_dil", "dw_dil", "avgpool_s4", "split", "mul_max", "relu_chain", "slice_conv",
                 "mean_axis", "pool_big", "conv_stride_asym", "squeeze_expand", "ew16",
-                "concat_hw", "pad_conv", "fc_batch", "tconv_var", "resize_x", "ew_rank", "conv_big_kernel", "pool_then_ew"]
+                "concat_hw", "pad_conv", "fc_batch", "tconv_var", "resize_x", "ew_rank", "conv_big_kernel", "pool_then_ew",
+                "splitv", "slice_op", "unpack_pack", "sqdiff", "argmax", "quant_chain"]
 
 
 def fam_single_op(rng, kind=None):
@@ -807,6 +808,71 @@ def fam_single_op(rng, kind=None):
         if rng.random() < 0.4:
             net.output(y, e1)
             return net
+    elif kind == "splitv":
+        axis = rng.choice([3, 2, 1])
+        shp = [1, rng.randrange(2, 9), rng.randrange(2, 9), rng.choice([8, 16, 24])]
+        sizes = {3: rng.choice([[8, shp[3] - 8]] if shp[3] > 8 else [[4, 4]]), 2: [1, shp[2] - 1], 1: [shp[1] - 1, 1]}[axis]
+        if sum(sizes) != shp[axis] or min(sizes) < 1:
+            return None
+        x = _inp(net, rng, shp, dt)
+        st_ = net.tensor([len(sizes)], "int32", None, None, sizes, name="split_sizes")
+        ax = net.tensor([], "int32", None, None, [axis], name="split_axis")
+        parts = []
+        for sz in sizes:
+            ps = list(shp)
+            ps[axis] = sz
+            parts.append(net.tensor(ps, dt, x.scale, x.zp))
+        net.op("SPLIT_V", [x, st_, ax], parts, dict(NumSplits=len(sizes)))
+        outs_ = [unary(net, rng, "RELU", p_) if rng.random() < 0.5 else pool(net, rng, p_, "MAX_POOL_2D", (1, 1), (1, 1), "VALID") for p_ in parts]
+        net.output(*outs_)
+        return net
+    elif kind == "slice_op":
+        shp = [1, rng.randrange(3, 10), rng.randrange(3, 10), rng.choice([4, 8, 16])]
+        x = _inp(net, rng, shp, dt)
+        beg = [0, rng.randrange(0, 2), rng.randrange(0, 2), rng.choice([0, 0, shp[3] // 2])]
+        size = [1, shp[1] - beg[1] - rng.randrange(0, 2), shp[2] - beg[2] - rng.randrange(0, 2), shp[3] - beg[3]]
+        bt = net.tensor([4], "int32", None, None, beg, name="slice_begin")
+        szt = net.tensor([4], "int32", None, None, size, name="slice_size")
+        t_ = net.tensor(size, dt, x.scale, x.zp)
+        net.op("SLICE", [x, bt, szt], [t_], {})
+        y = conv2d(net, rng, t_, 4, (3, 3), (1, 1), (1, 1), "SAME") if rng.random() < 0.6 else unary(net, rng, "RELU", t_)
+    elif kind == "unpack_pack":
+        n_ = rng.choice([2, 3])
+        hh, cc = rng.randrange(2, 8), rng.choice([4, 8, 16])
+        x = _inp(net, rng, [n_, hh, cc], dt)
+        parts = [net.tensor([hh, cc], dt, x.scale, x.zp) for _ in range(n_)]
+        net.op("UNPACK", [x], parts, dict(Num=n_, Axis=0))
+        parts2 = [elementwise(net, rng, "ADD", p_, const_like(net, rng, [1, cc], dt), out_shape=[hh, cc]) if rng.random() < 0.5 else p_ for p_ in parts]
+        for p_ in parts2:
+            p_.scale, p_.zp = x.scale, x.zp
+        y = net.tensor([n_, hh, cc], dt, x.scale, x.zp)
+        net.op("PACK", parts2, [y], dict(ValuesCount=n_, Axis=0))
+    elif kind == "sqdiff":
+        shp = [1, rng.randrange(1, 8), rng.randrange(1, 8), rng.choice([4, 8, 16])]
+        x = _inp(net, rng, shp, dt)
+        b_ = _inp(net, rng, shp, dt) if rng.random() < 0.6 else const_like(net, rng, [1, 1, 1, shp[3]], dt)
+        y = net.tensor(shp, dt, _rs(rng, 0.05, 0.5), _zp(rng, dt))
+        net.op("SQUARED_DIFFERENCE", [x, b_], [y], {})
+    elif kind == "argmax":
+        shp = [1, rng.randrange(1, 6), rng.randrange(1, 6), rng.choice([2, 5, 16, 33, 100])]
+        x = _inp(net, rng, shp, dt)
+        ax = net.tensor([], "int32", None, None, [3], name="argmax_axis")
+        y = net.tensor(shp[:3], "int32", None, None)
+        net.op("ARG_MAX", [x, ax], [y], dict(OutputType=2))
+    elif kind == "quant_chain":
+        # requantisation between the 8-bit types and between 16 and 8 bit, around a kernel operator
+        shp = [1, rng.randrange(1, 8), rng.randrange(1, 8), rng.choice([4, 8, 16])]
+        d0 = rng.choice(["int8", "uint8", "int16"])
+        x = net.input(shp, d0, _rs(rng, 0.01, 0.2) if d0 != "int16" else _rs(rng, 0.0001, 0.001), _zp(rng, d0) if d0 != "int16" else 0, name="input0")
+        d1 = rng.choice([t for t in ("int8", "uint8", "int16") if t != d0] + ["int8"])
+        q1 = net.tensor(shp, d1, _rs(rng, 0.01, 0.2) if d1 != "int16" else _rs(rng, 0.0001, 0.001), _zp(rng, d1) if d1 != "int16" else 0)
+        net.op("QUANTIZE", [x], [q1], {})
+        t_ = q1
+        if d1 != "int16" and rng.random() < 0.6:
+            t_ = pool(net, rng, t_, "MAX_POOL_2D", (2, 2), (1, 1), "SAME")
+        d2 = rng.choice(["int8", "uint8"])
+        y = net.tensor(list(t_.shape), d2, _rs(rng, 0.01, 0.2), _zp(rng, d2))
+        net.op("QUANTIZE", [t_], [y], {})
     elif kind in ("softmax",):
         x = _inp(net, rng, [1, rng.choice([2, 10, 64, 100])] if rng.random() < 0.6 else [1, h, w, c], dt)
         y = unary(net, rng, "SOFTMAX", x, dict(Beta=1.0))
